@@ -36,9 +36,14 @@ def build_tbl(
 
         rest = yield from utils.match_arguments(metadata, argv[1:], AS.Number)
         values = (arg.value for arg in [first, *rest])
-        return utils.guessed_wrap(
-            functools.reduce(operator.mul, values)
-        )  # No init value
+        try:
+            return utils.guessed_wrap(
+                functools.reduce(operator.mul, values)
+            )  # No init value
+        except OverflowError:
+            raise error.UnsuspectedHangeulArithmeticError(
+                metadata, "곱이 실수로 나타내기에 너무 큽니다."
+            ) from None
 
     def _any(
         metadata: AS.Metadata, argv: Sequence[AS.Value]
@@ -79,7 +84,12 @@ def build_tbl(
             table = [(k, h, v) for h, (k, v) in merged.items()]
             return AS.Dict(table)
         argv = utils.check_type(metadata, argv, AS.Number)
-        return utils.guessed_wrap(sum(a.value for a in argv))
+        try:
+            return utils.guessed_wrap(sum(a.value for a in argv))
+        except OverflowError:
+            raise error.UnsuspectedHangeulArithmeticError(
+                metadata, "합이 실수로 나타내기에 너무 큽니다."
+            ) from None
 
     def _exponentiate(
         metadata: AS.Metadata, argv: Sequence[AS.Value]
@@ -94,6 +104,10 @@ def build_tbl(
             except ZeroDivisionError:
                 raise error.UnsuspectedHangeulDivisionError(
                     metadata, "0의 역수를 구하려고 했습니다."
+                ) from None
+            except OverflowError:
+                raise error.UnsuspectedHangeulArithmeticError(
+                    metadata, "거듭제곱 결과가 실수로 나타내기에 너무 큽니다."
                 ) from None
 
         argv = utils.check_type(metadata, argv, AS.Integer)
